@@ -33,7 +33,13 @@ RULE = ('point sets from 10 families (tiny 0..3 points, random small integers wi
         'group, one overlapping both), groups with bb_policy exact/0/auto, reference catalogs of 1, 2, 3 '
         'and all sources at 14+ sky locations incl. RA 0/360 wrap and |dec| up to 85 deg. A hull case is '
         'non-trivial when it has >= 3 distinct points and (duplicates or a collinear triple or a merged '
-        'vertex) or expects an error; every sky object is non-trivial; distinct = distinct canonical input')
+        'vertex) or expects an error; every sky object is non-trivial; distinct = distinct canonical input. '
+        'Whole-image (chip) footprints (c16_chipborder.py): correctors {FITS pixel_shape 1x1..4096x2048, FITS '
+        'pixel_bounds integer/non-integer/narrower than a pixel, FITS without bounding box, mock JWST with several '
+        'bounding boxes and without} x catalogs of 0..5 sources (integer, k+0.5, zero, large, dyadic, random, negative) '
+        'x stepsize {None, positive, 0, negative} x {calc_bounding_polygon, _calc_chip_bounding_polygon}; sources of '
+        'correctors WITH a bounding box are placed in the pixel-centre range [lx+0.5, hx-0.5]; a chip case is '
+        'non-trivial when the catalog is not empty and the rectangle is non-degenerate, or an exception is expected')
 ASSUMPTIONS = [
     'theorems are over an arbitrary linearly ordered field (sqrt parts over the reals); double rounding is '
     'outside the model (the Float runs of the model use the same IEEE operations in the same order and '
@@ -44,6 +50,9 @@ ASSUMPTIONS = [
     'sky <-> plane maps (astropy.wcs, the ad-hoc rotation of RefCatalog) are used as fixed charts; the '
     'tangent-plane polygon of RefCatalog is read back through the rotation matrix recorded from the code',
     'NaN / infinite coordinates are outside the model',
+    'chip footprint: the model ends where the pixel border is handed to det_to_world; sources in the outer half-pixel '
+    'band of a bounding box are not generated (recorded observation, see c16_chipborder.band_probe); spherical '
+    'containment is not tested for footprints narrower than 1.5e-7 rad (spherical_geometry cannot decide it)',
 ]
 
 ARCSEC = math.pi / 180.0 / 3600.0
@@ -1191,6 +1200,9 @@ def run(ctx):
     outs = ctx.driver(lines)
     compare_hulls(ctx, outs, pending)
     compare_sky(ctx, outs, pending)
+    # the whole-image ("chip") footprint: model TW.Chip.chipPolygon, op `chipborder`
+    from . import c16_chipborder
+    c16_chipborder.run_extra(ctx)
     logging.disable(logging.NOTSET)
 
 
@@ -1230,6 +1242,9 @@ def replay(ctx, payload):
                 m = overlap_checks(ctx, A, B, case['pair'])
                 if case['pair'] == 'image-image-disjoint' and m is not None and m > AREA_ATOL:
                     ctx.oracle_fail(case, {'what': 'adjacent (disjoint) images have a non-zero intersection area', 'area': m})
+        elif case.get('op') == 'chipborder':
+            from . import c16_chipborder
+            c16_chipborder.replay_case(ctx, case)
         elif rebuild(ctx, rec, case, lines, pending) is None and case.get('op') not in ('image', 'group', 'refcat'):
             print('probe case: re-running the fixed-witness probes')
             probes(ctx, rec, lines, pending)
